@@ -120,7 +120,15 @@ fn sub_source(
             .collect();
         if !cands.is_empty() {
             let h = *r.pick(&cands);
-            let mode = if Some(h) == target {
+            let mode = if sim.cfg.prop == Prop::C10 {
+                // a C10 run composes live statements by moving them in: no clone / take of the
+                // composed statement is involved, so a defect of those (C15's subject) cannot
+                // surface as a wrong INSERT
+                if Some(h) == target {
+                    return Sub::Inline(Box::new(gen_inline_log(r, fam, depth.saturating_sub(1), sim.cfg.allow_nan)));
+                }
+                SubMode::Move
+            } else if Some(h) == target {
                 SubMode::Clone
             } else {
                 match r.below(10) {
@@ -309,7 +317,7 @@ impl Workload {
                     .collect();
                 if !cands.is_empty() && r.pct(sim.cfg.handle_sub_pct) {
                     let g = *r.pick(&cands);
-                    let mode = *r.pick(&[SubMode::Clone, SubMode::Take, SubMode::Move]);
+                    let mode = SubMode::Move; // see sub_source: no clone / take in a C10 run
                     used.push((g, mode));
                     Op::Ins(InsOp::SelectFrom(Sub::Handle { h: g, mode }))
                 } else {
